@@ -66,6 +66,8 @@ type Scenario struct {
 	Cancel   bool         `json:"cancel"` // cancellation is one of the scheduler's options
 	OptProv  bool         `json:"optprov"`
 	Timeout  int          `json:"timeout"` // seconds; 0 = no deadline on the op ctx
+	Warm     int          `json:"warm"`     // completed warm-up lookups before the operation (feeds the network size estimator)
+	WarmBig  bool         `json:"warmbig"`  // the warm-up makes the estimator believe in a huge network
 	NAddrs   int          `json:"naddrs"`   // number of host addresses (0/1 = one, -1 = none)
 	AddrDrop []int        `json:"addrdrop"` // indices of host addresses removed by the address filter
 	Honest   bool         `json:"honest"`  // every peer answers with the K nearest peers of a k-bucket-complete table
@@ -132,6 +134,7 @@ type lookupEnv struct {
 	cid    cid.Cid
 	start  time.Time
 	reject map[peer.ID]bool
+	quiet  bool // warm-up phase: nothing is logged
 	dstore ds.Batching
 	hostAddrs []ma.Multiaddr
 }
@@ -207,6 +210,9 @@ func buildLookupEnv(t *testing.T, sc *Scenario) *lookupEnv {
 		return v.(error)
 	}
 	e.gate.OnPark = func(it *sim.Parked) {
+		if e.quiet {
+			return
+		}
 		switch it.Kind {
 		case "dial":
 			e.tr.AddBuf(1, it.Label, "Sent", "p", e.u.Rank(it.Payload.(peer.ID)), "kind", "dial", "typ", "", "ts", e.now())
@@ -247,6 +253,9 @@ func buildLookupEnv(t *testing.T, sc *Scenario) *lookupEnv {
 		}
 	}
 	e.gate.OnAbort = func(it *sim.Parked) {
+		if e.quiet {
+			return
+		}
 		var p peer.ID
 		typ := ""
 		if it.Kind == "dial" {
@@ -463,6 +472,19 @@ func errClass(err error) string {
 
 // runBubble runs f inside a synctest bubble and reports a panic of the bubble
 // (including synctest's deadlock report) as a string.
-func runBubble(t *testing.T, f func(t *testing.T)) {
+func runBubble(t *testing.T, f func(t *testing.T)) (deadlock string) {
+	defer func() {
+		if r := recover(); r != nil {
+			msg := fmt.Sprint(r)
+			if strings.Contains(msg, "deadlock") {
+				// goroutines of the code under test are blocked forever; they stay
+				// behind in their dead bubble and the run is reported as such
+				deadlock = msg
+				return
+			}
+			panic(r)
+		}
+	}()
 	synctest.Test(t, f)
+	return ""
 }
